@@ -10,7 +10,9 @@
 (*                       a second half follows only when items remain      *)
 (*   gate  (PopSignal)   non-blocking send of a token                      *)
 (*   recv                a consumer takes the token (non-blocking here)    *)
-(* pushx / popx are the two halves back to back (no gate).                 *)
+(* pushx / popx are the two halves back to back (no gate); pushn / popn are *)
+(* k such calls issued back to back by one goroutine (a burst); gateall     *)
+(* releases every call standing at a gate at once (their signals commute).  *)
 (* Only the length matters for wake-ups; the order of items is C12.        *)
 (*                                                                         *)
 (* WakeInv is the property as stated: whenever the queue is non-empty, no  *)
@@ -57,6 +59,16 @@ SignalF(s, p) ==
   [s EXCEPT !.sig = IF s.pst[p] = "pushsig" /\ ~PushSignals(s) THEN s.sig ELSE 1, !.pst[p] = "idle"]
 Through(s, p) == IF s.pst[p] = "idle" THEN s ELSE SignalF(s, p)
 
+(* bursts as function composition *)
+RECURSIVE PushN(_, _, _)
+PushN(s, p, k) == IF k = 0 THEN s ELSE PushN(Through(PushAddF(s, p), p), p, k - 1)
+RECURSIVE PopN(_, _, _)
+PopN(s, p, k) == IF k = 0 THEN s ELSE PopN(Through(PopRemoveF(s, p), p), p, k - 1)
+AtGate(s) == {p \in Procs : s.pst[p] # "idle"}
+RECURSIVE GateAll(_)
+GateAll(s) == IF AtGate(s) = {} THEN s ELSE GateAll(SignalF(s, CHOOSE p \in AtGate(s) : TRUE))
+MinOf(x, y) == IF x < y THEN x ELSE y
+
 Replies(a) ==
   CASE a.op = "push"  -> IF n >= wcap THEN {R("full", 0)} ELSE {R("gate", 0)}
     [] a.op = "pushx" -> IF n >= wcap THEN {R("full", 0)} ELSE {R("ok", 0)}
@@ -65,6 +77,9 @@ Replies(a) ==
     [] a.op = "popx"  -> IF n = 0 THEN {R("empty", 0)} ELSE {R("item", 0)}
     [] a.op = "gate"  -> IF pst[a.p] = "pushsig" THEN {R("ok", 0)} ELSE {R("item", 0)}
     [] a.op = "recv"  -> IF sig = 1 THEN {R("true", 0)} ELSE {R("false", 0)}
+    [] a.op = "pushn" -> {R("ok", MinOf(a.k, wcap - n))}         \* v: how many were accepted
+    [] a.op = "popn"  -> {R("item", MinOf(a.k, n))}              \* v: how many items came out
+    [] a.op = "gateall" -> {R("ok", Cardinality(AtGate(S)))}
     [] OTHER -> {}
 
 Do(a) ==
@@ -73,6 +88,9 @@ Do(a) ==
     [] a.op = "pop"   -> pst[a.p] = "idle" /\ Install(PopRemoveF(S, a.p))
     [] a.op = "popx"  -> pst[a.p] = "idle" /\ Install(Through(PopRemoveF(S, a.p), a.p))
     [] a.op = "gate"  -> pst[a.p] # "idle" /\ Install(SignalF(S, a.p))
+    [] a.op = "pushn" -> pst[a.p] = "idle" /\ Install(PushN(S, a.p, a.k))
+    [] a.op = "popn"  -> pst[a.p] = "idle" /\ Install(PopN(S, a.p, a.k))
+    [] a.op = "gateall" -> Install(GateAll(S))
     [] a.op = "recv"  -> /\ pst[a.p] = "idle"
                          /\ IF sig = 1 THEN Install([S EXCEPT !.sig = 0, !.tok[a.p] = TRUE])
                                        ELSE UNCHANGED wvars
@@ -88,6 +106,8 @@ InitWith(c) ==
 ---------------------------------------------------------------------------
 CONSTANT WCaps
 Acts == [op : {"push", "pushx", "pop", "popx", "gate", "recv"}, p : Procs]
+   \cup [op : {"pushn", "popn"}, p : Procs, k : {2, 3}]
+   \cup [op : {"gateall"}]
 Init == \E c \in WCaps : InitWith(c)
 Next == \E a \in Acts : \E r \in Replies(a) : Step(a, r)
 Spec == Init /\ [][Next]_allwvars
